@@ -123,6 +123,7 @@ func c09Line(work, line string, yml bool, tag string, lineNo int, r *rng, every,
 	var tr cropTrack
 	days, cropDays, tied, shadowLost, shadowDays, emitted := 0, 0, 0, 0, 0, 0
 	interesting := map[string]int{}
+	readerCases := map[string]int{}
 	dumpFrom, dumpTo := 0, 0
 	fmt.Sscanf(os.Getenv("C09_DUMP"), "%d,%d", &dumpFrom, &dumpTo)
 
@@ -173,6 +174,35 @@ func c09Line(work, line string, yml bool, tag string, lineNo int, r *rng, every,
 					hermes.ReadCropParamClassic(pn, &shadow, &g2)
 				}
 				shadowOK = sameFs(g2.TSUM[:], g.TSUM[:]) && sameFs(g2.BAS[:], g.BAS[:]) && g2.NRKOM == g.NRKOM
+				// initial organ masses and N concentrations: a second read of the same file into a FRESH state (no rotation history)
+				// gives the values of the file; the read at this rotation position must install exactly these unless a
+				// PERENNIAL stand is carried over (same crop as the entry before, third or later entry), which keeps its state
+				{
+					var g0 hermes.GlobalVarsMain
+					g0.Session = pre.Session
+					var l0 hermes.CropSharedVars
+					if yml {
+						hermes.ReadCropParamYml(pn, &l0, &g0)
+					} else {
+						hermes.ReadCropParamClassic(pn, &l0, &g0)
+					}
+					carried := g2.DAUERKULT && pre.AKF.Num > 2 && pre.FRUCHT[ai] == pre.FRUCHT[ai-1]
+					wantW, wantG, wantR := g0.WORG, g0.GEHOB, g0.WUGEH
+					if carried {
+						wantW, wantG, wantR = pre.WORG, pre.GEHOB, pre.WUGEH
+					}
+					repeat := pre.AKF.Num > 2 && pre.FRUCHT[ai] == pre.FRUCHT[ai-1]
+					for i := 0; i < g2.NRKOM && i < 5; i++ {
+						if !sameF(g2.WORG[i], wantW[i]) {
+							ofail(g, zeit, "initial-organ-mass-not-installed", "organ=%d read=%v expected=%v perennial=%v repeat=%v format-yml=%v", i+1, g2.WORG[i], wantW[i], g2.DAUERKULT, repeat, yml)
+							break
+						}
+					}
+					if !sameF(g2.GEHOB, wantG) || !sameF(g2.WUGEH, wantR) {
+						ofail(g, zeit, "initial-N-concentration-not-installed", "GEHOB=%v expected=%v WUGEH=%v expected=%v perennial=%v repeat=%v format-yml=%v", g2.GEHOB, wantG, g2.WUGEH, wantR, g2.DAUERKULT, repeat, yml)
+					}
+					readerCases[fmt.Sprintf("perennial=%v repeat=%v yml=%v", g2.DAUERKULT, repeat, yml)]++
+				}
 				if !g2.DAUERKULT {
 					// the real reader run on the copy: the stage days of the crop before must be cleared (initial state of the stage model)
 					for k := 0; k < 10; k++ {
@@ -214,6 +244,11 @@ func c09Line(work, line string, yml bool, tag string, lineNo int, r *rng, every,
 					"PESUM": g.PESUM, "OBMAS": g.OBMAS, "WUMAS": g.WUMAS, "WORG": g.WORG[:], "LAI": g.LAI, "REDUK": g.REDUK, "GEHMIN": g.GEHMIN,
 					"GEHMAX": g.GEHMAX, "PE": g.PE[:g.WURZ], "NFIX": g.NFIX, "WURZ": g.WURZ, "TEMP": g.TEMP[g.TAG.Index], "pre_PESUM": pre.PESUM,
 					"pre_GEHOB": pre.GEHOB, "pre_WUGEH": pre.WUGEH, "pre_WORG": pre.WORG[:], "pre_OBMAS": pre.OBMAS, "pre_WUMAS": pre.WUMAS})
+			}
+			if g.DAUERKULT {
+				// permanent crops are outside the claim (regrowth resets the stage): reader-level checks above only
+				tr.active = false
+				return
 			}
 			growing := tr.active && tr.akf == ai && zeit > pre.SAAT[ai] && (g.ERNTE[ai] == 0 || zeit <= g.ERNTE[ai])
 			if growing || sowing {
@@ -460,6 +495,9 @@ func c09Line(work, line string, yml bool, tag string, lineNo int, r *rng, every,
 			if float64(wurz) >= math.Min(wurm, float64(pre.N)) {
 				kinds = append(kinds, "root-limit")
 			}
+			if wurz >= 20 {
+				kinds = append(kinds, "root-layer-20") // root radius 0.020 - 0.001*i reaches 0: the guard of crop.go:616
+			}
 			if wurm > float64(pre.N) && wurz >= pre.N {
 				// the scaled soil limit lies below the profile: only the clamp to N holds the roots inside it
 				kinds = append(kinds, "root-clamp-N")
@@ -601,7 +639,7 @@ func c09Line(work, line string, yml bool, tag string, lineNo int, r *rng, every,
 	}()
 	hermes.VerifProbe = nil
 	emit(jobj{"k": "run", "line": lineNo, "tag": tag, "success": res.Success, "err": res.Err, "days": days, "cropdays": cropDays,
-		"tied": tied, "emitted": emitted, "shadow_days": shadowDays, "shadow_lost": shadowLost, "kinds": interesting})
+		"tied": tied, "emitted": emitted, "shadow_days": shadowDays, "shadow_lost": shadowLost, "kinds": interesting, "reader": readerCases})
 }
 
 // c09Oracle: the property itself on the state after PhytoOut of a day on which a crop grows
